@@ -155,6 +155,38 @@ def run(chk):
         chk.ob('C11-L3', '%s attaches only a non-None parent' % fq, not bad, 'add() is called under %s' % bad, fi.loc,
                key='C11-L3|%s' % fq)
 
+    # ---- L4b: the `add` overrides between the constructor's `parent.add(self)` and ElementList.append
+    chk.rule('C11-L4b', 'an `add` override of an element class changes the state of the element only for a real child: a child that is '
+                        'being attached as a shadow (read-created, traversal_parent set) leaves every attribute of its owner as it was')
+    elem4 = ix.cls('core.Element')
+    n4b = 0
+    for ci4 in sorted(set(te.subs(elem4)) | {elem4}, key=lambda k_: k_.qualname):
+        ad = ci4.methods.get('add')
+        if ad is None:
+            continue
+        n4b += 1
+        obj_p = ad.call_params()[0]
+        g4 = cfg_of(ad)
+        for w in fx.writes.get(ad.qualname, ()):
+            nd4 = w.node
+            if not (isinstance(nd4, ast.Attribute) and norm(nd4.value) == 'self'):
+                continue
+            nid4 = g4.node_for(nd4)
+            from ..cfg import edge_implies as _ei
+
+            def unproven4(src, dst, lab, g4=g4, obj_p=obj_p):
+                t4 = g4.nodes[src]
+                return not (t4.kind == 'test' and _ei(t4.ast, lab, ('%s.traversal_parent is None' % obj_p, 'not %s.traversal_parent' % obj_p),
+                                                      ('%s.traversal_parent is not None' % obj_p, '%s.traversal_parent' % obj_p)))
+            free4 = g4.reach(ENTRY, labels_ok=unproven4)
+            bad4 = nid4 in free4
+            chk.ob('C11-L4b', '%s writes self.%s for real children only' % (ad.qualname, nd4.attr), not bad4,
+                   '`self.%s` is written although `%s.traversal_parent is None` was not established: a child created by a mere read '
+                   '(attached as a shadow through this add) changes the owner -- e.g. the high-water mark that '
+                   'to_er7(trailing_children=True) enumerates up to' % (nd4.attr, obj_p),
+                   '%s:%d' % (ad.module.relpath, nd4.lineno), key='C11-L4b|%s|%s' % (ad.qualname, nd4.attr))
+    chk.floor('add overrides examined', n4b, 4)
+
     # ---- L4
     ap = el.methods.get('append')
     child_p = ap.call_params()[0]
